@@ -1,6 +1,6 @@
 (** C15 — Resources are addressed by type and untouched by entity operations.
     Property theorems only; proofs in Proofs/Refine.v, Proofs/CloneEq.v, Proofs/SerdeL.v. *)
-From Brood Require Import Base World Multi Spec BaseFacts Inv Refine CloneEq SerdeL.
+From Brood Require Import Base World Multi Spec BaseFacts Inv Refine CloneEq SerdeL Res ResFacts.
 
 (** Frame: no entity operation alters, duplicates or loses a resource; a write
     through get_mut at position i changes position i only. *)
@@ -47,3 +47,35 @@ Qed.
 Check (C15_serde : forall w s w', Inv w -> ser_world w = Some s -> de_world (w_n w) s = inr w' ->
   w_res w' = w_res w).
 Print Assumptions C15_serde.
+
+(** get / get_mut address the resource by its position in the list (the type-level index),
+    and a write through get_mut is what every later read sees, at that position only. *)
+Theorem C15_get : forall res i, res_get res i = nth_error res i.
+Proof. exact res_get_nth. Qed.
+Check (C15_get : forall res i, res_get res i = nth_error res i).
+Print Assumptions C15_get.
+
+Theorem C15_get_set : forall res i j v, i < length res ->
+  res_get (res_set res i v) j = if Nat.eqb j i then Some v else res_get res j.
+Proof. exact res_get_set. Qed.
+Check (C15_get_set : forall res i j v, i < length res ->
+  res_get (res_set res i v) j = if Nat.eqb j i then Some v else res_get res j).
+Print Assumptions C15_get_set.
+
+(** view_resources (canonical views in list order, then Reshape by successive Get):
+    for every duplicate-free request, in whatever order, position j of the result is the
+    j-th requested resource.  (rustc accepts only some of these orders - an API limitation
+    noted in DESIGN.md - the model covers them all.) *)
+Theorem C15_views : forall res req, NoDup req -> (forall i, In i req -> i < length res) ->
+  exists out, view_resources res req = Some out /\ length out = length req /\
+    forall j i, nth_error req j = Some i -> nth_error out j = res_get res i.
+Proof. exact view_resources_spec. Qed.
+Check (C15_views : forall res req, NoDup req -> (forall i, In i req -> i < length res) ->
+  exists out, view_resources res req = Some out /\ length out = length req /\
+    forall j i, nth_error req j = Some i -> nth_error out j = res_get res i).
+Print Assumptions C15_views.
+
+Example C15_example :
+  view_resources [10%N; 11%N; 12%N; 13%N] [3; 0; 2] = Some [13%N; 10%N; 12%N] /\
+  view_resources [10%N; 11%N; 12%N; 13%N] [] = Some [].
+Proof. vm_compute. auto. Qed.
